@@ -349,6 +349,11 @@ def q_jobs(bindir, prop, tier, seed, seq_enum=True, caps="unbounded,1,2,3", drop
         jobs += shards(bindir, "queue_driver", prop + "-slowdrop", seed, 1, base + ["--mode", "slow-drop"], 3400)
     if prop in ("C08", "C09", "C10", "C15", "C16"):
         jobs += shards(bindir, "queue_driver", prop + "-compose", seed, 1 if quick else 4, base + ["--mode", "compose"], 3400)
+    # every fifth job of the native drivers so far runs with a standard error that cannot be written to (/dev/full): whatever
+    # the library feels like reporting there while it handles an error or a panic of the wrapped sink must not cost anything
+    for k, j in enumerate(jobs):
+        if k % 5 == 4:
+            j.stderr_full = True
     if droprace:
         jobs += shards(bindir, "queue_conc", prop + "-droprace", seed, NCPU, base + ["--mode", "droprace", "--cases", "400" if quick else "30000"], 3400)
     if blocked:
